@@ -64,6 +64,11 @@ def run(tier, rep):
         except subprocess.TimeoutExpired:
             p.kill()
             out, how = "", "timeout"
+        if how == "exit 3":
+            # the harness's own watchdog named the input that did not terminate
+            for m in c.read_ndjson(mm):
+                rep.violation(m, "no termination within 20 s (%s, %s) on %s" % (m.get("how"), m.get("feed"), [d["text"][:80] for d in m["docs"]]))
+            continue
         if how != "ok":
             # find the culprit: rerun single-stepped, logging each input before it is executed
             cur = os.path.join(c.OUT, "cases", "C07.current.%d.json" % b)
